@@ -23,8 +23,8 @@ from props import PROPS  # noqa: E402
 
 def tier_params(tier):
     if tier == "thorough":
-        return {"timeout_s": 2400, "mem_gb": 24, "workers": 6, "features": ["thorough"]}
-    return {"timeout_s": 420, "mem_gb": 16, "workers": 12, "features": []}
+        return {"timeout_s": 3600, "mem_gb": 24, "workers": 6, "features": ["thorough"]}
+    return {"timeout_s": 600, "mem_gb": 16, "workers": 10, "features": []}
 
 
 def write_replay_file(pid, engine, harness, label, values, features, extra=None):
@@ -60,13 +60,57 @@ def find_playback(res, chk):
     return None
 
 
+def resolve_failures(res):
+    """Replay every assertion-class playback of a failing harness natively and
+    attribute the natively violated labels / panics to Kani's failing checks.
+    -> list of {label, location, values, replay, reproduced, has_playback}"""
+    runs = []
+    seen = set()
+    for pb in res["playbacks"]:
+        if pb["class"] == "cover":
+            continue
+        key = tuple(pb["values"])
+        if key in seen:
+            continue
+        seen.add(key)
+        rp = replay.replay_both(res["harness"], pb["values"], res["features"])
+        labels = set()
+        for prof in ("dev", "release"):
+            r = rp[prof]
+            labels.update(r.get("failed_labels", []))
+            if r["outcome"] in ("fail", "crash") and r.get("message"):
+                labels.add(r["message"])
+        runs.append({"playback": pb, "replay": rp, "labels": labels})
+    out = []
+    for chk in res["failing"]:
+        label = chk["description"]
+        own = [r for r in runs if r["playback"]["description"] == label]
+        hit = None
+        for r in own + runs:
+            if any(label == l or label in l or l in label for l in r["labels"] if l):
+                hit = r
+                break
+        if hit is None and own and own[0]["replay"]["reproduced"] and not own[0]["labels"]:
+            hit = own[0]  # crashed without a message (abort, stack overflow)
+        w = {"label": label, "location": chk["location"], "has_playback": bool(own)}
+        if hit is not None:
+            w.update({"values": hit["playback"]["values"], "replay": hit["replay"], "reproduced": True})
+        elif own:
+            w.update({"values": own[0]["playback"]["values"], "replay": own[0]["replay"], "reproduced": False})
+        else:
+            w.update({"values": None, "replay": None, "reproduced": False})
+        out.append(w)
+    return out
+
+
 def match_known(known, pid, harness, label):
     for k in known:
         if k.get("status") != "known" or k.get("property") != pid:
             continue
         if k.get("harness") not in (harness, "*"):
             continue
-        if k.get("label") and k["label"] in label:
+        labels = k.get("labels") or ([k["label"]] if k.get("label") else [])
+        if any(l in label for l in labels):
             return k
     return None
 
@@ -100,31 +144,25 @@ def run_e1(pid, tier, known, log):
             inconclusive.append(f"{res['harness']}: {res['reason'][:600]}")
         elif res["status"] == "fail":
             all_known = True
-            for chk in res["failing"]:
-                label = chk["description"]
-                pb = find_playback(res, chk)
-                w = {"label": label, "location": chk["location"], "values": pb["values"] if pb else None}
-                if pb is None:
-                    w["replay"] = None
-                    inconclusive.append(f"{res['harness']}: failing check '{label}' has no concrete playback")
-                    all_known = False
-                    rec["witnesses"].append(w)
-                    continue
-                rp = replay.replay_both(res["harness"], pb["values"], res["features"])
-                w["replay"] = rp
+            for w in resolve_failures(res):
+                label = w["label"]
                 k = match_known(known, pid, res["harness"], label)
-                if not rp["reproduced"]:
+                if not w["reproduced"]:
                     all_known = False
-                    inconclusive.append(
-                        f"{res['harness']}: solver counterexample for '{label}' does not reproduce natively "
-                        f"(dev={rp['dev']['outcome']}, release={rp['release']['outcome']}): encoding or stub error"
-                    )
+                    if w["values"] is None:
+                        inconclusive.append(f"{res['harness']}: failing check '{label}' has no concrete playback")
+                    else:
+                        rp = w["replay"]
+                        inconclusive.append(
+                            f"{res['harness']}: solver counterexample for '{label}' does not reproduce natively "
+                            f"(dev={rp['dev']['outcome']}, release={rp['release']['outcome']}): encoding or stub error"
+                        )
                 elif k is not None:
                     w["known_finding"] = k["id"]
                     known_hits.append((k, res["harness"], label))
                 else:
                     all_known = False
-                    path = write_replay_file(pid, "E1", res["harness"], label, pb["values"], res["features"])
+                    path = write_replay_file(pid, "E1", res["harness"], label, w["values"], res["features"])
                     w["replay_file"] = path
                     violations.append((res["harness"], label, path))
                 rec["witnesses"].append(w)
@@ -148,23 +186,18 @@ def run_e1(pid, tier, known, log):
             if res["status"] == "inconclusive":
                 inconclusive.append(f"{res['harness']} [exclude_known]: {res['reason'][:600]}")
             elif res["status"] == "fail":
-                for chk in res["failing"]:
-                    label = chk["description"]
-                    pb = find_playback(res, chk)
-                    w = {"label": label, "values": pb["values"] if pb else None}
-                    if pb is None:
+                for w in resolve_failures(res):
+                    label = w["label"]
+                    if w["reproduced"]:
+                        path = write_replay_file(pid, "E1", res["harness"], label, w["values"], res["features"])
+                        w["replay_file"] = path
+                        violations.append((res["harness"], label, path))
+                    elif w["values"] is None:
                         inconclusive.append(f"{res['harness']} [exclude_known]: '{label}' fails without playback")
                     else:
-                        rp = replay.replay_both(res["harness"], pb["values"], res["features"])
-                        w["replay"] = rp
-                        if rp["reproduced"]:
-                            path = write_replay_file(pid, "E1", res["harness"], label, pb["values"], res["features"])
-                            w["replay_file"] = path
-                            violations.append((res["harness"], label, path))
-                        else:
-                            inconclusive.append(
-                                f"{res['harness']} [exclude_known]: counterexample for '{label}' does not reproduce"
-                            )
+                        inconclusive.append(
+                            f"{res['harness']} [exclude_known]: counterexample for '{label}' does not reproduce"
+                        )
                     rec["witnesses"].append(w)
             records.append(rec)
     return records, violations, inconclusive, known_hits
